@@ -525,7 +525,11 @@ func loadObjectFromStdin(
 	// The view is taken again for the first data-changing access only: once this transaction holds the lock,
 	// waiting for it once more could only end in a timeout, and the uncommitted changes would be discarded.
 	if !ok || (forUpdate && !view.FileInfo.ForUpdate && !scope.Tx.stdinIsLocked) {
-		if forUpdate {
+		// The lock that is taken for an update is kept until the end of the transaction, also when the data
+		// could not be read. Locking again after that would only wait for the transaction itself.
+		if scope.Tx.stdinIsLocked {
+			// already locked by this transaction
+		} else if forUpdate {
 			if err = scope.Tx.LockStdinContext(ctx); err != nil {
 				return nil, err
 			}
